@@ -58,7 +58,7 @@ type Engine struct {
 	initDone     map[*ssa.Package]bool
 	sess         *smt.Session
 	durParts     map[*smt.Term][2]*smt.Term // durations produced by the virtual clock: (seconds, milliseconds)
-	Concrete     *ConcreteInputs // when set: nondets and choices come from this table (concolic replay)
+	Concrete     *ConcreteInputs            // when set: nondets and choices come from this table (concolic replay)
 }
 
 // WriteModFile creates go.verif.mod / go.verif.sum in dir, replacing the cgo gosensors module.
